@@ -48,9 +48,18 @@ func c20GenEntry(w *simrt.Stream, i int) c20Entry {
 	item := int64([]int{0, 7, 99999}[w.Draw(3)])
 	// proto3 JSON: a 64-bit integer may be written as a number or as a string, a field by its proto name or its
 	// lowerCamelCase JSON name
+	// (and as a number with a fraction or an exponent, as long as its value is integral: 42.0, 4.2e1)
 	num := func(v int64) interface{} {
-		if w.Draw(4) == 0 {
+		switch w.Draw(6) {
+		case 0:
 			return fmt.Sprint(v)
+		case 1:
+			return json.RawMessage(fmt.Sprintf("%d.0", v))
+		case 2:
+			if v != 0 && v%10 == 0 {
+				return json.RawMessage(fmt.Sprintf("%de1", v/10))
+			}
+			return json.RawMessage(fmt.Sprintf("%d.00e0", v))
 		}
 		return v
 	}
@@ -92,8 +101,13 @@ func c20GenEntry(w *simrt.Stream, i int) c20Entry {
 	}
 	e.Call = "target.TargetService." + e.Method
 	for k := 0; k < w.Draw(3); k++ {
-		key := []string{"x-req", "X-Upper", "authorization", "k1"}[w.Draw(4)]
+		key := []string{"x-req", "X-Upper", "authorization", "k1", "trace-bin"}[w.Draw(5)]
 		e.MD[key] = fmt.Sprintf("v%d-%d", i, k)
+		if key == "trace-bin" {
+			// a binary-valued key: grpc carries the value base64-coded on the wire and hands the server the bytes as
+			// written, whatever they look like (these look like base64 or hex themselves)
+			e.MD[key] = fmt.Sprintf("%04d", i) + []string{"deadbeef", "QUJD", "0a1b2c3d", "aGVsbG8="}[w.Draw(4)]
+		}
 	}
 	switch w.Draw(6) {
 	case 0:
